@@ -78,7 +78,7 @@ def driver_source(calls, bufs):
     just before the first call that uses it, so capacities may refer to outputs of earlier calls.
     Prints one JSON line per call: error fields and the contents of every buffer allocated so far."""
     out = ['#include <cstdio>', '#include <cstdlib>', '#include <cstring>', '#include <cmath>', '#include <cinttypes>',
-           '#include "awkward/kernels.h"']
+           '#include "awkward/kernels.h"', '#include "awkward/kernel-utils.h"']
     out.append('template <typename T> void dump(const char* name, T* p, long n) { printf("\\"%s\\": [", name); '
                'for (long i = 0; i < n; i++) { double d = (double)p[i]; '
                'if (std::isnan(d)) printf("%s\\"nan\\"", i ? "," : ""); else if (std::isinf(d)) printf("%s\\"%sinf\\"", i ? "," : "", d < 0 ? "-" : ""); '
@@ -121,7 +121,10 @@ def driver_source(calls, bufs):
                 argv.append(pn)
             else:
                 raise ValueError(a)
-        out.append('  { struct Error e = %s(%s);' % (c['cname'], ', '.join(argv)))
+        if c.get('void'):
+            out.append('  { struct Error e = success(); %s(%s);' % (c['cname'], ', '.join(argv)))
+        else:
+            out.append('  { struct Error e = %s(%s);' % (c['cname'], ', '.join(argv)))
         out.append('    printf("{\\"call\\": %d, \\"err\\": %%s%%s%%s, \\"identity\\": %%lld, \\"attempt\\": %%lld", e.str ? "\\"" : "", e.str ? e.str : "null", e.str ? "\\"" : "", (long long)e.identity, (long long)e.attempt);' % ci)
         out.append('    fflush(stdout); }')
         out.append('  printf(", \\"bufs\\": {");')
